@@ -8,6 +8,7 @@ PY = "/venv/bin/python"
 
 COMMON_NOTE = ("Obligations the statement rests on but that are the subject of another property (e.g. copy-on-write writes nothing pre-existing, "
                "the pass-through set of protect_via_deepcopy, the __deepcopy__ table) are re-stated and re-decided under this property's own rule ids. "
+               "In addition each property carries structural necessary-condition rules (rules/metarules.py, rules/shared.py, rules/r5rules.py: who-may-write / who-may-call tables, flags forwarded verbatim, own-namespace triggers, check-before-store order, per-option guards) read from the AST with local aliases substituted; their ids are listed in the evidence. "
                "Thorough tier = quick + all collection families + checker self-test (catalogued breaking variants of this property must be "
                "reported, catalogued behaviour-preserving variants must keep the verdict; each on a scratch copy of the current tree). Static: parses /repo/spec_classes (and the stdlib source of the inherited ABC mixins) on every run; never imports or runs "
                "the package; no solver. Trusted base: the abstract interpreter in /verif/sa (finite provenance domain, forked-and-merged "
